@@ -74,16 +74,12 @@ Theorem C13_batch_mutators_stage_only :
   Chain.DbAtomicExpected.write_once_sync Gen.DbAtomic.found_db_durable = true.
 Proof. vm_compute. split; reflexivity. Qed.
 
-(* pkg/blockchain, pkg/consensus: the only code writing the engine database outside a batch handed to Chain.AddBlock /
-   Chain.RemoveBlock is DataAccess.ClearTempBlocks (mutator closure shared with C04) — single_durable_write assumes it *)
+(* pkg/blockchain, pkg/consensus (abstract interpretation with helpers inlined, shared with C04): every step creates one batch,
+   stages only into it, commits it exactly once, and nothing writes the database directly, not even through a parameter bound
+   to the database handle — single_durable_write assumes exactly this *)
 Theorem C13_engine_writes_closed :
-  Gen.Mutators.found_sites = Chain.MutatorsExpected.expected_sites /\
-  Chain.MutatorsExpected.durable_writers Gen.Mutators.found_sites = Chain.MutatorsExpected.expected_durable.
-Proof. vm_compute. split; reflexivity. Qed.
-
-Theorem C13_no_database_as_writer_argument :
-  Gen.Mutators.found_writer_args = Chain.MutatorsExpected.expected_writer_args /\
-  existsb Chain.MutatorsExpected.writer_arg_is_database Gen.Mutators.found_writer_args = false.
+  Gen.Mutators.found_steps = Chain.MutatorsExpected.expected_steps /\
+  Gen.Mutators.found_global = Chain.MutatorsExpected.expected_global.
 Proof. vm_compute. split; reflexivity. Qed.
 
 (* non-vacuity: a consistent genesis database and a history add, add, delete, rejected add *)
